@@ -62,6 +62,7 @@ func C16(p *load.Prog, r *report.Report) {
 	r.Analysed["exported_functions"] = n
 	r.RequireCount("C16.api", "exported functions and methods of the root package", n, 50)
 	moduleHygiene(p, r, "C16")
+	pooledResults(p, a, r, "C16")
 	// package-level variables of the module and who writes them
 	nglob := 0
 	for _, sp := range p.ModSSA {
